@@ -327,6 +327,8 @@ def term(v, sort=None):
             return to_cell_term(t)
         if sort.eq(RealS) and t.sort().eq(IntS):
             return z3.ToReal(t)
+        if sort.eq(IntS) and t.sort().eq(Cell):
+            return Cell.i(t)
         if sort.eq(StrS) and t.sort().eq(Cell):
             # a cell used where a string is required (dict key, pattern): its string payload.
             # Assumption recorded by callers: such cells are strings.
